@@ -87,6 +87,7 @@ class Machine:
         self.log_access = False
         self.frozen_alloc = False
         self.peak_cells = 0
+        self.nonfinite_seen = False  # some floating-point operation produced inf or nan
         self.executed = set()  # ids of executed statement nodes (optional)
         self.log_executed = False
 
@@ -314,7 +315,10 @@ class Interp:
             return v
         l = float(l)
         r = float(r)
-        return l + r if t is A.Add else (l - r if t is A.Subtract else l * r)
+        v = l + r if t is A.Add else (l - r if t is A.Subtract else l * r)
+        if v != v or v in (float("inf"), float("-inf")):
+            self.m.nonfinite_seen = True
+        return v
 
     def e_cmp(self, e, f):
         A = self.A
